@@ -921,6 +921,11 @@ func (cfg *Config) quotedElemFields(pe *syntax.ParamExp) ([]string, error) {
 		if star {
 			return []string{cfg.ifsJoin(elems)}, nil
 		}
+		if elems == nil {
+			// An array without elements, such as after "declare -a name":
+			// zero fields, which a nil slice would not express.
+			elems = []string{}
+		}
 		return elems, nil
 	}
 	if nodeLit(pe.Index) == "@" && !cfg.Env.Get(name).IsSet() {
